@@ -27,3 +27,45 @@ def cliRun (outcome : Except ErrClass Nat) : CliOutcome :=
   | .error t => { exit := 1, stderr := [.error t], stdoutIsTableData := true }
 
 end Rbql
+
+namespace Rbql
+
+/-! ### which CSV dialect the command line reads and writes (`run_with_python_csv`, `cli_rbql.js`) -/
+
+inductive CliPolicy | simple | quoted | quotedRfc | whitespace | monocolumn
+  deriving DecidableEq, Repr
+
+/-- `normalize_delim` -/
+def cliNormalizeDelim (d : List Char) : List Char :=
+  if d = "TAB".toList then ['\t'] else if d = ['\\', 't'] then ['\t'] else d
+
+/-- `get_default_policy` -/
+def cliDefaultPolicy (d : List Char) : CliPolicy :=
+  if d = [';'] ∨ d = [','] then .quoted else if d = [' '] then .whitespace else .simple
+
+inductive OutFormat | input | csv | tsv | monocolumn
+  deriving DecidableEq, Repr
+
+/-- `interpret_named_csv_format` -/
+def cliNamedFormat : OutFormat → Option (List Char × CliPolicy)
+  | .input => none
+  | .csv => some ([','], .quoted)
+  | .tsv => some (['\t'], .simple)
+  | .monocolumn => some ([], .monocolumn)
+
+structure CliDialects where
+  inDelim : List Char
+  inPolicy : CliPolicy
+  outDelim : List Char
+  outPolicy : CliPolicy
+  deriving DecidableEq, Repr
+
+/-- the dialects `query_csv` is called with: `--delim`, optional `--policy`, `--out-format` -/
+def cliDialects (delimArg : List Char) (policyArg : Option CliPolicy) (fmt : OutFormat) : CliDialects :=
+  let d := cliNormalizeDelim delimArg
+  let p := policyArg.getD (cliDefaultPolicy d)
+  match cliNamedFormat fmt with
+  | none => { inDelim := d, inPolicy := p, outDelim := d, outPolicy := p }
+  | some (od, op) => { inDelim := d, inPolicy := p, outDelim := od, outPolicy := op }
+
+end Rbql
